@@ -733,8 +733,8 @@ class DataAccessObject(HasGeneric[T]):
             if isinstance(kwargs.get(key), list):
                 kwargs[key] = container(kwargs[key])
         init_args = {
-            **base_kwargs,
             **{key: value for key, value in kwargs.items() if key in argument_names},
+            **base_kwargs,
         }
         self._call_initializer_or_assign(result, init_args)
         for key, value in kwargs.items():
@@ -855,8 +855,14 @@ class DataAccessObject(HasGeneric[T]):
             for rel in parent_mapper.relationships:
                 setattr(parent_dao, rel.key, getattr(self, rel.key))
             base_result = parent_dao.from_dao(state=state)
+            # what the alternative parent maps comes back through its mapping, also when the names coincide
+            owned_by_parent = {
+                column.name for column in parent_mapper.columns if is_data_column(column)
+            } | {rel.key for rel in parent_mapper.relationships}
             for argument in argument_names:
-                if argument not in base_kwargs and not hasattr(self, argument):
+                if argument not in base_kwargs and (
+                    argument in owned_by_parent or not hasattr(self, argument)
+                ):
                     try:
                         base_kwargs[argument] = getattr(base_result, argument)
                     except AttributeError:
